@@ -44,8 +44,11 @@ func c11Status(kind string) (field string, value interface{}) {
 
 func TestVerif_C11_Status(t *testing.T) {
 	for _, st := range []string{"null", "omit", "empty", "nested", "own-og", "conditions"} {
-		for _, live := range []string{"same", "spec-edited", "recreated"} {
+		for _, live := range []string{"same", "spec-edited", "recreated", "recreated-at-conflict"} {
 			for _, fault := range []string{"none", "409x1", "409x6", "404", "500"} {
+				if live == "recreated-at-conflict" && fault != "409x1" && fault != "409x6" {
+					continue // the parent is replaced between the refused write and the retry's fresh read
+				}
 				for _, ce := range []bool{false, true} {
 					c := c11Case{st, live, fault, ce}
 					if !sim.WantCase(c.id()) {
@@ -105,12 +108,25 @@ func runC11(t *testing.T, c c11Case) {
 		s.MustCreate(pgvr, n)
 	}
 	var statusWrites int32
+	replace := func() {
+		old := s.Peek(pgvr, sc.ns(), sc.parentName())
+		s.ExtDelete(pgvr, sc.ns(), sc.parentName(), "")
+		n := sim.NewObject(sc.parentInfo(), sc.ns(), sc.parentName())
+		n["spec"] = old["spec"]
+		s.MustCreate(pgvr, n)
+	}
+	if c.Live == "recreated-at-conflict" {
+		s.HoldWatch(pgvr, true)
+	}
 	s.SetFault(func(ri *sim.ReqInfo) *sim.Fault {
 		if c.ChildErr && ri.Verb == "create" && ri.GVR == sim.WidgetInfo.GVR() {
 			return &sim.Fault{Code: 500}
 		}
 		if ri.GVR == pgvr && ri.Sub == "status" && ri.Verb == "update" {
 			n := atomic.AddInt32(&statusWrites, 1)
+			if n == 1 && c.Live == "recreated-at-conflict" {
+				replace()
+			}
 			switch c.Fault {
 			case "409x1":
 				if n == 1 {
@@ -206,7 +222,7 @@ func runC11(t *testing.T, c c11Case) {
 	}
 	live := s.Peek(pgvr, sc.ns(), sc.parentName())
 	switch {
-	case c.Live == "recreated":
+	case c.Live == "recreated" || c.Live == "recreated-at-conflict":
 		for _, q := range statusReqs {
 			if q.OK() && q.Applied {
 				viol("status-written-to-replaced-parent", "the parent was deleted and recreated under the same name; the new object must not receive the status")
@@ -247,7 +263,7 @@ func runC11(t *testing.T, c c11Case) {
 		}
 	}
 	// (whether a child error must surface when the status write hits a benign race is C12's business)
-	if c.ChildErr && sr.Err == nil && c.Live != "recreated" && (c.Fault == "none" || c.Fault == "409x1") {
+	if c.ChildErr && sr.Err == nil && c.Live != "recreated" && c.Live != "recreated-at-conflict" && (c.Fault == "none" || c.Fault == "409x1") {
 		viol("child-error-swallowed", "a failing child create did not make the sync fail although the status write succeeded")
 	}
 	// second sync: status already equal => no write at all
